@@ -122,7 +122,12 @@ def oracle_point(code, kind, x, y):
             elif e > 0 and best_bound(rho, e * (1 - 1e-6)) <= delta * (1 - 1e-6):
                 return 'eps not tight', dict(rho=rho, delta=delta, eps=e)
             r2 = code.cdp_rho(e, delta)
-            if not (abs(r2 - rho) <= 1e-6 * max(rho, 1e-9)):
+            slack = best_bound(rho, 0.0) <= delta * (1 - 1e-6)
+            if slack:
+                # eps is clamped at 0 and the constraint is not tight: cdp_rho returns the LARGEST budget meeting the target at that eps, at least rho
+                if r2 < rho * (1 - 1e-6):
+                    return 'cdp_rho does not invert cdp_eps', dict(rho=rho, delta=delta, eps=e, rho_back=r2, note='target already met at eps = 0: the largest admissible budget cannot be below rho')
+            elif not (abs(r2 - rho) <= 1e-6 * max(rho, 1e-9)):
                 return 'cdp_rho does not invert cdp_eps', dict(rho=rho, delta=delta, eps=e, rho_back=r2)
             e3 = code.cdp_eps(rho * 1.25, delta); e4 = code.cdp_eps(rho, min(0.9, delta * 2))
             if e3 < e * (1 - 1e-9) or e4 > e * (1 + 1e-9):
